@@ -56,6 +56,10 @@ func c01Session(id int, files map[string]string, filesB64 map[string]string, tar
 		`{"textDocument":{"uri":"file://$ROOT/%s"},"position":{"line":0,"character":2},"context":{"triggerKind":2,"triggerCharacter":"."}}`, target))})
 	pc.Steps = append(pc.Steps, proto.Step{M: "textDocument/didSave", N: true, P: json.RawMessage(fmt.Sprintf(`{"textDocument":{"uri":"file://$ROOT/%s"},"text":%s}`, target, jstr("a."+openText)))})
 	pc.Steps = append(pc.Steps, proto.Step{M: "textDocument/hover", P: posParams(target, 0, 0)})
+	// the file watcher reports files that are not (or no longer) on disk: created, changed and deleted
+	pc.Steps = append(pc.Steps, proto.Step{M: "workspace/didChangeWatchedFiles", N: true,
+		P: json.RawMessage(`{"changes":[{"uri":"file://$ROOT/ghost_created.lua","type":1},{"uri":"file://$ROOT/sub/ghost_changed.lua","type":2},{"uri":"file://$ROOT/ghost_deleted.lua","type":3}]}`)})
+	pc.Steps = append(pc.Steps, proto.Step{M: "textDocument/hover", P: posParams(target, 0, 1)})
 	pc.Steps = append(pc.Steps, proto.Step{M: "textDocument/didClose", N: true, P: json.RawMessage(fmt.Sprintf(`{"textDocument":{"uri":"file://$ROOT/%s"}}`, target))})
 	return pc
 }
@@ -105,7 +109,7 @@ type c01Trace struct {
 }
 
 func checkC01(c *Ctx) {
-	c.Rep.Rule = "conformant sessions (open, every request kind at both ends and the middle of every line and at two positions outside the text, document and workspace requests, an edit, a completion, a save, a hover, close) are run on fresh real servers over generated workspaces: (a) Hostile.tla's strings over 27 lexer-relevant byte classes (all of length <= 3, a seeded sample of length 4 quick / all thorough), (b) Hostile.tla's annotation blocks in which two aliases and a class refer to each other through every wrapper, used in seven ways, every second one with its declarations in another file than its uses, (c) enum blocks and over-long error lists, (d) a seeded sample of LuaGrammar.tla's chunks and single-token mutants, (e) position sweeps over every line:character of small buffers, (g) hand-written files under a luahelper.json that switches the opt-in analyses 22-28 on, (f) ClassGraph.tla's class hierarchies that contain an inheritance cycle, declared in one, two or three files, with a variable of every class (a seeded third quick / all thorough). Every session is recorded as an event trace (send/reply/notify/push/tick/crash/fault) and LivenessTrace.tla replays the traces through Liveness.tla, TLC evaluating Good (alive, no swallowed internal fault, no request overdue) after every event; all other families' replays run under the same crash/hang monitor; distinct = distinct workspaces"
+	c.Rep.Rule = "conformant sessions (open, every request kind at both ends and the middle of every line and at two positions outside the text, document and workspace requests, an edit, a completion, a save, a hover, close) are run on fresh real servers over generated workspaces: (a) Hostile.tla's strings over 27 lexer-relevant byte classes (all of length <= 3, a seeded sample of length 4 quick / all thorough), (b) Hostile.tla's annotation blocks in which two aliases and a class refer to each other through every wrapper, used in seven ways, every second one with its declarations in another file than its uses, (c) enum blocks and over-long error lists, (d) a seeded sample of LuaGrammar.tla's chunks and single-token mutants, (e) position sweeps over every line:character of small buffers, (h) luahelper.json files whose ignore entries are shell globs or otherwise not regular expressions; every session also reports watched-file events for files that are not on disk; (g) hand-written files under a luahelper.json that switches the opt-in analyses 22-28 on, (f) ClassGraph.tla's class hierarchies that contain an inheritance cycle, declared in one, two or three files, with a variable of every class (a seeded third quick / all thorough). Every session is recorded as an event trace (send/reply/notify/push/tick/crash/fault) and LivenessTrace.tla replays the traces through Liveness.tla, TLC evaluating Good (alive, no swallowed internal fault, no request overdue) after every event; all other families' replays run under the same crash/hang monitor; distinct = distinct workspaces"
 	c.Rep.Assumptions = []string{
 		"the quantifier over bytes* is met only through these structured generators; there is no coverage-guided byte fuzzing in this family",
 		"a request is overdue after 10 s without an answer (three orders of magnitude above the measured norm); the child is then killed",
@@ -379,6 +383,20 @@ func checkC01(c *Ctx) {
 			"fx2.lua": "local M = {}\n---@param a number\nfunction M.go(a, b) return a end\n---@param s string\nfunction globalfn(s) return s end\nreturn M\n"}
 		raw, _ := json.Marshal(map[string]interface{}{"fam": "optin", "name": k})
 		add("opt-in analyses on "+k+"\n"+text, raw, c01Session(id, files, nil, "fx.lua", text, c01Positions(text, 10)))
+	}
+	// ---- (h) luahelper.json whose ignore entries are not regular expressions (shell globs, stray brackets), over a
+	// workspace that has diagnostics to filter ----
+	for ci, cfgText := range []string{
+		`{"ShowWarnFlag":1,"IgnoreFileErr":["*_gen.lua","[gen"]}`,
+		`{"ShowWarnFlag":1,"IgnoreFileErrTypes":[{"File":"*_gen.lua","Types":[4]},{"File":"(x","Types":[1,2]}]}`,
+		`{"ShowWarnFlag":1,"IgnoreFileOrFloder":["*_gen.lua","c++/","+x/"]}`,
+		`{"ShowWarnFlag":1,"IgnoreFileErr":["a_gen.lua"],"IgnoreLocalNoUseVars":["*"],"IgnoreWildcardModules":["[","*"],"IgnoreFileVars":[{"File":"*","Vars":["["]}]}`,
+	} {
+		text := "local unused_a = 1\nprint(undefined_b)\nlocal t = { k = 1, k = 2 }\nprint(t)\n"
+		id++
+		files := map[string]string{"fx.lua": text, "a_gen.lua": "local g = \nprint(undefined_g)\n", "luahelper.json": cfgText}
+		raw, _ := json.Marshal(map[string]interface{}{"fam": "badconfig", "n": ci})
+		add("ignore entries that are not regular expressions: "+cfgText, raw, c01Session(id, files, nil, "fx.lua", text, c01Positions(text, 6)))
 	}
 	// ---- (f) class hierarchies with an inheritance cycle (ClassGraph.tla, Level "cycles"), in every file layout ----
 	{
